@@ -110,7 +110,9 @@ fn governing<'a>(s: &'a TypeSpec, it: &ImplItem) -> Option<&'a TAttr> {
 fn star_trait(s: &TypeSpec, it: &ImplItem) -> String {
     let owner = items::owner(it);
     match owner.as_str() {
-        "Clone" | "Copy" => {
+        // the Copy impl always needs Copy (also next to a field-by-field Clone impl, which only needs Clone)
+        "Copy" => "Copy".into(),
+        "Clone" => {
             let enum_with_method = s.kind == Kind::Enum && s.all_fields().any(|f| f.method(Tr::Clone).is_some());
             if s.kind == Kind::Union || (s.has(Tr::Copy) && !enum_with_method) || !s.has(Tr::Clone) {
                 "Copy".into()
